@@ -1,0 +1,60 @@
+//go:build verif
+
+// Contracts for package bytesize, read by the verification-condition generator
+// in /verif (govc).  Comment-only apart from the proof harness at the end
+// (compiled only with the build tag verif, never called).
+
+package bytesize
+
+//@ spec func specUnitOf(r int) int = r == 'B' ? 1 : (r == 'K' ? 1024 : (r == 'M' ? 1048576 : (r == 'G' ? 1073741824 : (r == 'T' ? 1099511627776 : 0))))
+
+// "digits plus unit": at least one digit, then exactly one unit letter, then the end.
+//@ spec func specSizeWF(s string) bool = len(s) >= 2 && specUnitOf(s[len(s)-1]) > 0 && (forall j int :: 0 <= j && j < len(s)-1 ==> specIsDigit(s[j]))
+//@ spec func specSizeVal(s string) int = specDecVal(s, len(s)-1) * specUnitOf(s[len(s)-1])
+
+//@ props C17 C16
+//@ func Parse
+//@   nopanic
+//@   ensures [C17] result1 == nil ==> specSizeWF(s)
+//@   ensures [C17] result1 == nil ==> result0 == specSizeVal(s)
+//@   ensures [C17] specSizeWF(s) && specSizeVal(s) <= MaxInt64 && (forall n int :: 0 <= n && n < len(s) ==> specDecVal(s, n) <= MaxInt64) ==> result1 == nil
+//@   loop 1 invariant rangepos <= len(s) && num >= 0 && len(s) > 0
+//@   loop 1 invariant !foundUnit ==> multiplier == 1 && num == specDecVal(s, rangepos) && (forall j int :: 0 <= j && j < rangepos ==> specIsDigit(s[j]))
+//@   loop 1 invariant !foundUnit ==> (foundDigit <==> rangepos > 0)
+//@   loop 1 invariant foundUnit ==> rangepos >= 1 && multiplier == specUnitOf(s[rangepos-1]) && multiplier > 0 && num == specDecVal(s, rangepos-1)
+//@   loop 1 invariant foundUnit ==> (forall j int :: 0 <= j && j < rangepos-1 ==> specIsDigit(s[j])) && (foundDigit <==> rangepos > 1)
+
+//@ props C17 C16
+//@ func ByteSize.ToString
+//@   nopanic
+//@   ensures specUnitOf(unitRune) > 0 <==> result1 == nil
+//@   ensures result1 == nil && b >= 0 ==> len(result0) >= 2 && result0[len(result0)-1] == unitRune
+//@   ensures result1 == nil && b >= 0 ==> (forall j int :: 0 <= j && j < len(result0)-1 ==> specIsDigit(result0[j]))
+//@   ensures result1 == nil && b >= 0 ==> specDecVal(result0, len(result0)-1) == b / specUnitOf(unitRune)
+//@   ensures result1 == nil && b >= 0 ==> (forall n int :: 0 <= n && n < len(result0) ==> specDecVal(result0, n) <= b / specUnitOf(unitRune))
+
+//@ props C17 C16
+//@ func ByteSize.FindLargestFittingUnit
+//@   nopanic
+//@   ensures specUnitOf(result) > 0
+//@   ensures [C17] b >= 0 ==> b % specUnitOf(result) == 0
+//@   ensures b >= 0 ==> (forall c int :: specUnitOf(c) > 0 && b >= specUnitOf(c) && b % specUnitOf(c) == 0 ==> specUnitOf(c) <= specUnitOf(result))
+//@   loop 1 invariant specUnitOf(largestUnitRune) == largestUnitSize && largestUnitSize >= 1
+//@   loop 1 invariant b >= 0 ==> b % largestUnitSize == 0
+//@   loop 1 invariant b >= 0 ==> (forall c int :: visited[c] && specUnitOf(c) > 0 && b >= specUnitOf(c) && b % specUnitOf(c) == 0 ==> specUnitOf(c) <= largestUnitSize)
+
+//@ props C17 C16
+//@ func ByteSize.String
+//@   nopanic
+//@   ensures [C17] b >= 0 ==> specSizeWF(result) && specSizeVal(result) == b
+//@   ensures b >= 0 ==> (forall n int :: 0 <= n && n < len(result) ==> specDecVal(result, n) <= b)
+
+// Round trip of a saved size: what MarshalJSON writes (String) is what
+// UnmarshalJSON reads (Parse).  verifRoundTrip is a proof harness: it is never
+// called; govc verifies its contract from the contracts of String and Parse.
+//@ props C17
+//@ func verifRoundTrip
+//@   requires b >= 0
+//@   ensures result1 == nil && result0 == b
+
+func verifRoundTrip(b ByteSize) (ByteSize, error) { return Parse(b.String()) }
